@@ -718,3 +718,69 @@ func condAtomsOf(v ssa.Value, fi *fnInfo, out map[string]ssa.Value, depth int) {
 		fi.atoms(v, out, 0)
 	}
 }
+
+// prefixGuard: req = G + T (signed wide arithmetic), some dominating edge
+// establishes len(sl) >= G (the same SSA value G, possibly plus a non-negative
+// constant), T is tainted, non-negative and uncorrelated with every other
+// dominating condition.
+func (fi *fnInfo) prefixGuard(sl, req ssa.Value, b *ssa.BasicBlock) (g, t ssa.Value, ok bool) {
+	bo, isB := req.(*ssa.BinOp)
+	if !isB || bo.Op != token.ADD {
+		return nil, nil, false
+	}
+	if bt, _ := bo.Type().Underlying().(*types.Basic); bt == nil || !wideSigned(bt) {
+		return nil, nil, false
+	}
+	facts, complete := fi.zoneAt(b)
+	if !complete {
+		return nil, nil, false
+	}
+	lk := fi.lenKey(sl, b)
+	for _, pair := range [][2]ssa.Value{{bo.X, bo.Y}, {bo.Y, bo.X}} {
+		gv, tv := pair[0], pair[1]
+		if _, isK := constInt(tv); isK {
+			continue
+		}
+		gk, gc, ok1 := fi.zterm(gv, b, 0)
+		if !ok1 || gk == "" {
+			continue
+		}
+		covered := false
+		for _, f := range facts {
+			// gk - len <= c  with c <= -gc  means len >= G
+			if f.x == gk && f.y == lk && f.c <= -gc {
+				covered = true
+			}
+		}
+		if !covered {
+			continue
+		}
+		if !(tainted(tv, 0) || taintedFwd(fi.fn, tv, 0)) || fi.intLB(tv, b, 0) < 0 {
+			continue
+		}
+		// T must be able to be positive and be free of other conditions
+		if u := fi.intUB(tv, b, 0); u == 0 {
+			continue
+		}
+		if !fi.uncorrelated(tv, b, nil, 0) {
+			continue
+		}
+		return gv, tv, true
+	}
+	return nil, nil, false
+}
+
+func describeVal(v ssa.Value) string {
+	if v == nil {
+		return "?"
+	}
+	if n := v.Name(); n != "" {
+		if p := v.Parent(); p != nil {
+			if pos := v.Pos(); pos.IsValid() {
+				return "computed at " + p.Prog.Fset.Position(pos).String()
+			}
+		}
+		return n
+	}
+	return v.String()
+}
